@@ -37,7 +37,7 @@ ARG_DEP_QUERIES = ["(== 1)", "(== 2) \"two\"", "(> 15)", "(!= 1)", "?(type == T_
 POS_QUERIES = ["pos", "?0", "?1", "(|A| A pos)", "!0 \"later\""]       # the position of the input value is part of the input
 FILE_DEP_QUERIES = ["(|D| D entry ?TAG_enumerator name)", "(|D| D entry ?TAG_structure_type offset)",
                     "(|D| D symbol (name == \"main\") name)", "(|D| D entry ?TAG_subprogram (pos < 9) name)"]
-ARGS = [("-a", "str"), ("-a", "x y"), ("--a", "5"), ("--a", "(1, 2)"), ("--a", "(1, 2, 3) 10 mul"), ("--a", "!()"), ("--a", "\"s\""),
+ARGS = [("-a", "str"), ("-a", "x y"), ("-a", "50%% off %s"), ("-a", 'q"\\%(1%)'), ("--a", "5"), ("--a", "(1, 2)"), ("--a", "(1, 2, 3) 10 mul"), ("--a", "!()"), ("--a", "\"s\""),
         ("--a", "[1, 2]")]
 FILES = ["/repo/tests/a1.out", "/repo/tests/enum.o", "/repo/tests/nontrivial-types.o", "/repo/tests/y.o",
          os.path.join(RUN, "c19-not-elf.txt"), os.path.join(RUN, "c19-missing-file")]
@@ -313,10 +313,13 @@ def work_laws(task):
     for i in range(start, start + count):
         rnd = random.Random((seed << 32) ^ i ^ 0xC19C)
         q = rnd.choice(["(|A| A)", "(|A| A length)", "(|A| [A elem])", "(|A B| A B add)"])
-        x = rnd.choice(["abc", "x y", "", "q'q", "100"])
+        # X is passed verbatim: characters that mean something inside a Zwerg string literal (quote, backslash,
+        # the % of format directives) have to be escaped on the --a side of the equation
+        x = rnd.choice(["abc", "x y", "", "q'q", "100", "50%% off", "%s", "x%(1%)y", "%d%x", 'a"b', "back\\slash", "tab\there", "%", "100%", "(1, 2)", "\\x41"])
         n = 2 if "A B" in q else 1
+        from ..render import esc_bytes
         a1 = sum([["-a", x]] * n, [])
-        a2 = sum([["--a", '"%s"' % x]] * n, [])
+        a2 = sum([["--a", '"%s"' % esc_bytes(x.encode())]] * n, [])
         flags = [f for f in ("-c", "-H", "-s") if rnd.random() < 0.3]
         r1 = run_cli(flags + a1 + ["-e", q], None)
         r2 = run_cli(flags + a2 + ["-e", q], None)
